@@ -665,6 +665,12 @@ func (m *machine) lookup(instr *ssa.Lookup, x, idx value) value {
 // conversions
 
 func (m *machine) conv(tDst, tSrc types.Type, x value) value {
+	if sb, ok := x.(*symBytes); ok {
+		if b, ok := tDst.Underlying().(*types.Basic); ok && b.Kind() == types.String {
+			return sb.str
+		}
+		panic(engineErr("symbolic byte slice (json model) used as something other than a string"))
+	}
 	sv, ok := x.(*symv)
 	if !ok {
 		// slices with symbolic bytes -> string
@@ -942,6 +948,8 @@ func (m *machine) callBuiltin(caller *frame, callpos token.Pos, fn *ssa.Builtin,
 			return len((*x).(array))
 		case []value:
 			return len(x)
+		case *symBytes:
+			return m.strLen(x.str)
 		case *mapV:
 			return x.length()
 		case *chanV:
